@@ -25,6 +25,23 @@ def Cmp.int : Cmp → Int → Int → Bool
   | .gt, a, b => decide (b < a)
   | .ge, a, b => decide (b ≤ a)
 
+/-- how an optional argument is tested: `x is not None` or plain truthiness (`if x:`), under which `0` counts as absent -/
+inductive NoneTest where
+  | isNotNone | truthy
+  deriving Repr, DecidableEq, Inhabited
+
+/-- the limit that is applied, given how `limit` is tested -/
+def NoneTest.limit : NoneTest → Option Nat → Option Nat
+  | .isNotNone, l => l
+  | .truthy, some 0 => none
+  | .truthy, l => l
+
+/-- how the number of day folders of a window is counted: difference of the calendar dates (`end.date() - start.date()`),
+or whole 24 h periods of the elapsed time (`end - start`) -/
+inductive DayCount where
+  | calendar | elapsed
+  deriving Repr, DecidableEq, Inhabited
+
 /-- a chain of `if key == lit_i: result = …` statements (not `elif`): the LAST entry whose literal equals the key decides -/
 def lastMatch {α : Type} (table : List (String × α)) (key : String) : Option α :=
   table.foldl (fun acc e => if e.1 = key then some e.2 else acc) none
